@@ -299,16 +299,25 @@ COARSE = (0.3, 0.05)     # tau_B, tau_X (fraction of range) when the solver repo
 #                          'optimal_inaccurate' (reduced tolerances reached, not the requested)
 
 
-def solve_grade(events):
+def solve_grade(events, proc=None):
     """'optimal' | 'inaccurate' | 'unusable' from the statuses of the top-level solves
     (solves issued from inside another solve - DQCP bisection - probe feasibility and are
-    legitimately 'infeasible')."""
-    st = {e.status for e in events if e.depth == 0 and not e.faulted and e.status is not None}
-    if st <= {"optimal"}:
-        return "optimal"
-    if st <= {"optimal", "optimal_inaccurate"}:
-        return "inaccurate"
-    return "unusable"
+    legitimately 'infeasible').
+
+    'optimal_inaccurate' from CLARABEL means its documented reduced tolerances were met
+    (usable at the coarse tolerance); from the DQCP bisection of the excitation model it is
+    the normal outcome; from SCS / OSQP it means the iteration limit was hit and the error is
+    unbounded (measured: 0.63 capture units on a padded poisson batch) - unusable."""
+    grade = "optimal"
+    for e in events:
+        if e.depth != 0 or e.faulted or e.status in (None, "optimal"):
+            continue
+        if e.status == "optimal_inaccurate" and (proc == "excitation"
+                                                 or (e.solver or "").upper() == "CLARABEL"):
+            grade = "inaccurate"
+            continue
+        return "unusable"
+    return grade
 
 
 def build_estimator(plan):
@@ -406,7 +415,7 @@ def execute(plan):
             bump("reference_failed:" + proc + ":" + ref.value)
             return {"violation": None, "digest": log.digest(), "steps": steps,
                     "counters": counters, "cov": [], "nontrivial": False}
-        ref_grade = solve_grade(seam.events)
+        ref_grade = solve_grade(seam.events, proc)
         if ref_grade == "unusable":
             # the solver itself disclaims a reference solve (iteration limit, ...): nothing
             # reliable to compare against in this run
@@ -510,7 +519,7 @@ def execute(plan):
                     f"{proc}: n={n}, batch_size={bs!r} raised {out.brief()} although the "
                     f"batch_size=1 reference succeeded", ex=ex, exc=out.value, n=n)
             X, B = (np.asarray(v) for v in out.value)
-            grade = solve_grade(seam.events)
+            grade = solve_grade(seam.events, proc)
             if grade == "unusable":
                 # accuracy disclaimed by the solver for this call: values are not compared
                 bump("execution_solver_status_unusable:" + proc)
